@@ -46,6 +46,18 @@ def run(tier, rep):
                        "trace_line": x.get("line"), "source": "trace validation (MergeTrace)"},
                       "recorded call is not a step of the specification: merge_necessity(%s, %s) = %s" % (
                           short(e.get("vec")), short(e.get("other")), short(e.get("result"))))
+    # scale instead of small scope: long lists (any length-dependent fast path, index narrowing, capacity arithmetic)
+    trace2 = os.path.join(c.OUT, "traces", "C15.long.ndjson")
+    t2 = c.harness(["merge-record", "--seed", c.seed() + 1, "--n", 150 if tier == "quick" else 3000, "--alphabet", 300,
+                    "--maxlen", 90 if tier == "quick" else 280, "--out", trace2])
+    acc2, rej2, st2 = c.validate_trace("MergeTrace", trace2, "C15-trace-long", timeout=1500)
+    for x in rej2:
+        e = x.get("event") or {}
+        rep.violation({"kind": "merge", "vec": e.get("vec"), "other": e.get("other"), "actual": e.get("result"), "panic": e.get("ev") == "Panic",
+                       "trace_line": x.get("line"), "source": "trace validation (MergeTrace, long lists)"},
+                      "recorded call on long lists (%d / %d items) is not a step of the specification%s" % (
+                          len(e.get("vec") or []), len(e.get("other") or []), " (panic)" if e.get("ev") == "Panic" else ""))
+    rep.add(traces_validated_against_impl=acc2, long_list_calls=t2["events"])
     rep.add(traces_validated_against_impl=acc, trace_events=t["events"], trace_states=st,
             rule="every pair of duplicate-free tagged lists over the alphabet up to the length bound is a state of "
                  "MC_Necessity (enumerated exhaustively, each replayed through the real merge_necessity); "
